@@ -501,6 +501,9 @@ func (r *Runtime) _stringPad(call FunctionCall, start bool) Value {
 		fillerAscii = " "
 		filler = fillerAscii
 	}
+	if maxLength > math.MaxInt32 {
+		panic(r.newError(r.getRangeError(), "Invalid string length"))
+	}
 	remaining := toIntStrict(maxLength - stringLength)
 	if fillerUnicode == nil && strUnicode == nil {
 		fl := fillerAscii.Length()
@@ -562,6 +565,10 @@ func (r *Runtime) stringproto_repeat(call FunctionCall) Value {
 	}
 	if numInt == 0 || s.Length() == 0 {
 		return stringEmpty
+	}
+	if numInt > math.MaxInt32/int64(s.Length()) {
+		// the result would not fit into any string (and its size would overflow int arithmetic)
+		panic(r.newError(r.getRangeError(), "Invalid string length"))
 	}
 	num := toIntStrict(numInt)
 	a, u := devirtualizeString(s)
